@@ -11,6 +11,15 @@ use std::sync::{Arc, Mutex};
 
 thread_local! {
     static LAST_PANIC: RefCell<Option<String>> = RefCell::new(None);
+    /// how often a guarded call on this thread ended by unwinding (panic or the fuel / allocation hooks)
+    static UNWINDS: std::cell::Cell<u64> = std::cell::Cell::new(0);
+}
+
+/// Number of guarded calls on this thread that ended by unwinding.  Unwinding through rrss (which is not written to
+/// be unwind-safe, and need not be: the fuel hooks are this harness's own) may leave per-thread state behind, so the
+/// harness moves a shard to a fresh thread after every unwind; see `harness::run`.
+pub fn unwinds() -> u64 {
+    UNWINDS.with(|u| u.get())
 }
 
 /// Install a quiet panic hook that records message and location per thread.
@@ -52,6 +61,7 @@ pub fn guarded<T>(f: impl FnOnce() -> T) -> Caught<T> {
     match r {
         Ok(t) => Caught::Done(t),
         Err(payload) => {
+            UNWINDS.with(|u| u.set(u.get() + 1));
             if let Some(b) = payload.downcast_ref::<BudgetExhausted>() {
                 Caught::Budget(format!("{:?}", b))
             } else {
